@@ -258,16 +258,20 @@ func (f *function) evaluate() (data string, changed bool, err error) {
 	return buf.String(), true, nil
 }
 
+func (f *function) setInfo(info targetInfo) {
+	f.targetInfo = info
+	if f.always {
+		f.targetInfo.Rerun = true
+	}
+}
+
 func (f *function) load() error {
 	// load info
 	info, err := f.proj.loadTargetInfo(f.label)
 	if err != nil {
 		return fmt.Errorf("loading prior function environment: %w", err)
 	}
-	f.targetInfo = info
-	if f.always {
-		f.targetInfo.Rerun = true
-	}
+	f.setInfo(info)
 
 	// refresh the target info
 	//
